@@ -8,6 +8,11 @@ ALL = [f'C{i:02d}' for i in range(1, 21)]
 
 # id -> (level text, level note, technique, design ref)
 CHECKS = {
+    'C05': (
+        'Bounded-exhaustive fault injection on inputs: for every accepted well-typed term up to the node bound (quick 4, thorough 5; two schemas) every argument position x every wrong-sorted filler of a 15-term menu (one clash per text, confirmed by the reference definite-clash analysis), every reference reused at a type disjoint from the one its position requires (both conjunct orders), and non-boolean predicate roots; each text goes through the expression / predicate / condition / property parsers and must raise TypeError.',
+        'Definite clashes only (parameter-type based); transitive clashes through = unification and heterogeneous sets are outside the claim.',
+        'bounded exhaustive term x position x filler enumeration with a reference definite-clash analysis',
+    ),
     'C04': (
         'Bounded-exhaustive type-directed exploration: for each schema of a family (primitives, variable/fixed arrays, nested messages, arrays of messages, constants; 4 schemas quick, 6 thorough) every Bool term up to 5 nodes that is well-typed under the schema (references to the message, to an aliased earlier message and to quantified variables) is wrapped into every property position that can see the alias; the parser must accept it, every reference must keep its declared type possible, and the real schema check must succeed.',
         'Sort-directed generation is the reference notion of well-typed; the schema resolver in hplmc/schemas.py is independent of hpl.types.',
